@@ -195,3 +195,92 @@ BEZIER_ONCE = Contract(
 )
 
 ALL.append((BEZIER_ONCE, "heavy", "Operations.degree_increase_bezier_once", None))
+
+
+# ---- heavy.Operations.one_knot_insert_once (Boehm's single insertion matrix, all shapes) ----------------------------
+def h_span(eng, st, args, kw, node, exits):
+    """ImmutableKnotVector.span(node) by contract (proved: __span_single + valid): ValueError outside, else the span index."""
+    o, x = args
+    U, p, n = o.fields["_seq"], o.fields["_ImmutableKnotVector__degree"].z, o.fields["_ImmutableKnotVector__npts"].z
+    xv = x.real()
+    eng.raise_exc(st, "ValueError", z3.Or(xv < z3.Select(U.arr, p), xv > z3.Select(U.arr, n)), node.lineno, exits)
+    k = fresh_int("span")
+    st.assume(z3.And(p <= k, k <= n - 1))
+    st.assume(z3.Or(z3.And(z3.Select(U.arr, k) <= xv, xv < z3.Select(U.arr, k + 1)), z3.And(xv == z3.Select(U.arr, n), k == n - 1)))
+    return Num(k, True)
+
+
+def h_mult(eng, st, args, kw, node, exits):
+    """ImmutableKnotVector.mult(node), assumed contract under A3 (checked per shape by engine S in C03): the number of elements equal to node;
+    in a sorted vector these are the block of indices that ends at the span index."""
+    o, x = args
+    U, p, n = o.fields["_seq"], o.fields["_ImmutableKnotVector__degree"].z, o.fields["_ImmutableKnotVector__npts"].z
+    xv = x.real()
+    eng.raise_exc(st, "ValueError", z3.Or(xv < z3.Select(U.arr, p), xv > z3.Select(U.arr, n)), node.lineno, exits)
+    s = fresh_int("mult")
+    i = fresh_int("i")
+    lo = fresh_int("blo")
+    st.assume(z3.And(0 <= s, s <= p + 1, 0 <= lo, lo + s <= U.n))
+    st.assume(z3.ForAll([i], z3.Implies(z3.And(0 <= i, i < U.n), z3.And(lo <= i, i < lo + s) == (z3.Select(U.arr, i) == xv)),
+                        patterns=[z3.Select(U.arr, i)]))
+    st.assume(z3.Implies(s > 0, z3.And(z3.Select(U.arr, lo) == xv, z3.Select(U.arr, lo + s - 1) == xv)))   # end points of the block
+    st.env["MULT_LO"] = Num(lo, True)
+    return Num(s, True)
+
+
+def _alpha(se, r):
+    U, p, x = se.st.env["U"], se.st.env["p"].z, se.st.env["node"].z
+    return (x - z3.Select(U.arr, r)) / (z3.Select(U.arr, r + p) - z3.Select(U.arr, r))
+
+
+def boehm_stage(stage):
+    """Matrix entries after the given stage: 0/1/2 = inside loop 0/1/2 with counter `it`, 3 = final."""
+    def f(se, r, c, it=None):
+        env = se.st.env
+        k, s, p = env["oldspan"].z, env["oldmult"].z, env["p"].z
+        r_, c_ = r.z, c.z
+        itz = it.z if it is not None else None
+        diag = z3.And(c_ == r_, r_ <= k - p) if stage > 0 else z3.And(c_ == r_, r_ < itz)
+        if stage == 0:
+            sub = z3.BoolVal(False)
+        elif stage == 1:
+            sub = z3.And(c_ == r_ - 1, r_ >= k - s + 1, r_ <= itz)
+        else:
+            sub = z3.And(c_ == r_ - 1, r_ >= k - s + 1)
+        base = z3.If(z3.Or(diag, sub), z3.RealVal(1), z3.RealVal(0))
+        if stage < 2:
+            return Num(base, False)
+        hi = itz if stage == 2 else k + 1
+        inband = z3.And(r_ >= k - p + 1, r_ < hi)
+        a = _alpha(se, r_)
+        return Num(z3.If(inband, z3.If(c_ == r_, a, z3.If(c_ == r_ - 1, 1 - a, z3.RealVal(0))), base), False)
+    return f
+
+
+ALLM = "all(all(matrix[r, c] == %s for c in range(oldnpts)) for r in range(oldnpts + 1))"
+COMMON_INV = ["oldnpts == n", "degree == p", "one == 1", "p <= oldspan and oldspan <= n - 1", "0 <= oldmult and oldmult <= p",
+              "U[oldspan] <= node and node < U[oldspan + 1]",
+              "all(U[i] == node for i in range(oldspan - oldmult + 1, oldspan + 1))"]
+
+INSERT_ONCE = Contract(
+    "heavy.Operations.one_knot_insert_once",
+    params={"knotvector": "obj:ImmutableKnotVector", "node": "real"},
+    setup=lambda eng, st: setup_self(eng, st) or st.env.__setitem__("knotvector", st.env["self"]),
+    # interior node whose multiplicity is at most p (no p+1 consecutive elements equal to it): the insertion is admissible
+    requires=["U[p] < node", "node < U[n]", "all(not (U[i] == node and U[i + p] == node) for i in range(n + 1))"],
+    spec={"st0": boehm_stage(0), "st1": boehm_stage(1), "st2": boehm_stage(2), "boehm": boehm_stage(3)},
+    ensures=[(ALLM % "boehm(r, c)").replace("matrix", "result")],
+    raises={},
+    loops={
+        0: dict(invariant=COMMON_INV + ["0 <= it0 and it0 <= oldspan - degree + 1", ALLM % "st0(r, c, it0)"], decreases="oldspan - degree + 1 - it0"),
+        1: dict(invariant=COMMON_INV + ["oldspan - oldmult <= it1 and it1 <= oldnpts", ALLM % "st1(r, c, it1)"], decreases="oldnpts - it1"),
+        2: dict(invariant=COMMON_INV + ["oldspan - degree + 1 <= it2 and it2 <= oldspan + 1", ALLM % "st2(r, c, it2)"], decreases="oldspan + 1 - it2"),
+    },
+    calls=dict(KV_CALLS, **{"func:ImmutableKnotVector": CallSpec(h_ctor_identity), "static:np.zeros": CallSpec(h_np_zeros_any),
+                            "func:totuple": CallSpec(h_totuple_any), "method:ImmutableKnotVector.span": CallSpec(h_span),
+                            "method:ImmutableKnotVector.mult": CallSpec(h_mult)}),
+    consts={"np": E.Const(("module", "np"))},
+    canary="result[0, 0] == 0",
+)
+
+ALL.append((INSERT_ONCE, "heavy", "Operations.one_knot_insert_once", None))
